@@ -73,12 +73,16 @@ Definition own_cells (own : Z -> list Z) (e : list Z) : list Z :=
   | _ => own (nth (Nat.div (length e - 1) 2) e 0)
   end.
 
-(* edge.py:134-136 edges : the mesh edge shared by consecutive vertices (first of the intersection) *)
-Fixpoint iface_edges (own_edges : Z -> list Z) (e : list Z) : list (option Z) :=
+(* edge.py:134-136 edges : list(set(a.ownEdges) & set(b.ownEdges))[0] for consecutive vertices.  Which element of a Python set comes
+   first is an implementation detail of CPython's hashing; the model keeps the whole intersection (the candidates) and the
+   correspondence requires the implementation's choice to be one of them -- equality whenever two vertices share one mesh edge *)
+Fixpoint iface_edge_candidates (own_edges : Z -> list Z) (e : list Z) : list (list Z) :=
   match e with
-  | a :: ((b :: _) as t) => hd_error (inter (own_edges a) (own_edges b)) :: iface_edges own_edges t
+  | a :: ((b :: _) as t) => inter (own_edges a) (own_edges b) :: iface_edge_candidates own_edges t
   | _ => []
   end.
+Definition iface_edges (own_edges : Z -> list Z) (e : list Z) : list (option Z) :=
+  map (@hd_error Z) (iface_edge_candidates own_edges e).
 
 (* virtual_edges.py:125-130 eid_from_vertex : first interface sharing >= 2 ids *)
 Fixpoint eid_from_vertex (earr : list (list Z)) (vbel : list Z) : option nat :=
